@@ -23,7 +23,6 @@ import (
 	"github.com/ethereum/go-ethereum/ethdb"
 	"github.com/ethereum/go-ethereum/ethdb/memorydb"
 	"pgregory.net/rapid"
-	"verif.local/kit/reftrie"
 	vs "verif.local/kit/stat"
 )
 
